@@ -7,7 +7,7 @@ import FsProofs.Lemmas.PathLemmas
 import FsProofs.C12
 
 namespace Fs.C11
-open Fs Fs.Ref Fs.Path
+open Fs Fs.Ref Fs.Path Fs.QueryLemmas
 
 /-- two spellings are equivalent when they normalise to the same absolute path -/
 def Equiv (p p' : Str) : Prop :=
@@ -27,32 +27,122 @@ def mapPaths (f : Str → Str) : Op → Op
   | .movedir s d c => .movedir (f s) (f d) c | .copydir s d c => .copydir (f s) (f d) c
   | .close => .close
 
+/- ORIGINAL STATEMENT (false as written):
+
+    theorem equiv_validate (p p' : Str) (h : Equiv p p') : validate p = validate p'
+
+`validatepath` rejects a NUL character anywhere in the *raw* string, before normalisation, but a
+component holding the NUL can be cancelled by a following `..`.  Counterexample:
+`p = "\x00/.."`, `p' = ""`: both normalise to `""` (absolute path `/`), yet
+`validate p = InvalidCharsInPath` and `validate p' = ok []`.  The added hypothesis `h0` excludes
+exactly this class (one spelling contains NUL, the other does not). -/
+theorem equiv_validate_counterexample :
+    ∃ p p' : Str, Equiv p p' ∧ validate p ≠ validate p' :=
+  ⟨['\x00', '/', '.', '.'], [], ⟨[], [], by decide, by decide, by decide⟩, by decide⟩
+
 /-- equivalent spellings validate to the same component path -/
-theorem equiv_validate (p p' : Str) (h : Equiv p p') : validate p = validate p' := by
-  sorry
+theorem equiv_validate (p p' : Str) (h : Equiv p p') (h0 : '\x00' ∈ p ↔ '\x00' ∈ p') :
+    validate p = validate p' := by
+  obtain ⟨q, q', hq, hq', ha⟩ := h
+  obtain ⟨cs, _, hr, hr'⟩ := resolve_of_norm_abs p p' q q' hq hq' ha
+  unfold validate
+  rw [iteratepath_of_resolve p cs hr, iteratepath_of_resolve p' cs hr']
+  by_cases hp : '\x00' ∈ p
+  · have hp' := h0.1 hp
+    simp [hp, hp']
+  · have hp' : '\x00' ∉ p' := fun h => hp (h0.2 h)
+    simp [hp, hp']
+
+/- ORIGINAL STATEMENT (false as written, for the same reason as `equiv_validate`):
+
+    theorem spelling_invariant (s : State) (op : Op) (f : Str → Str)
+        (hf : ∀ p ∈ op.paths, Equiv p (f p)) : step s (mapPaths f op) = step s op
+
+Counterexample: `s = State.empty`, `op = exists "\x00/.."`, `f = fun _ => ""`:
+`exists "\x00/.."` raises `InvalidCharsInPath`, `exists ""` returns `true`. -/
+theorem spelling_invariant_counterexample :
+    ∃ (s : State) (op : Op) (f : Str → Str), (∀ p ∈ op.paths, Equiv p (f p)) ∧
+      (step s (mapPaths f op)).2 ≠ (step s op).2 :=
+  ⟨State.empty, .exists_ ['\x00', '/', '.', '.'], fun _ => [],
+    by
+      intro p hp
+      simp only [Op.paths, List.mem_cons, List.not_mem_nil, or_false] at hp
+      subst hp
+      exact ⟨[], [], by decide, by decide, by decide⟩,
+    by decide⟩
 
 /-- SPELLING INVARIANCE: re-spelling every path argument by an equivalent spelling changes
 neither the result (value or error class) nor the resulting tree, for every operation. -/
 theorem spelling_invariant (s : State) (op : Op) (f : Str → Str)
-    (hf : ∀ p ∈ op.paths, Equiv p (f p)) : step s (mapPaths f op) = step s op := by
-  sorry
+    (hf : ∀ p ∈ op.paths, Equiv p (f p))
+    (h0 : ∀ p ∈ op.paths, ('\x00' ∈ p ↔ '\x00' ∈ f p)) : step s (mapPaths f op) = step s op := by
+  have hv : ∀ p ∈ op.paths, validate (f p) = validate p :=
+    fun p hp => (equiv_validate p (f p) (hf p hp) (h0 p hp)).symm
+  cases op <;> simp only [Op.paths, List.mem_cons, List.not_mem_nil, or_false, forall_eq_or_imp,
+      forall_eq] at hv
+  all_goals simp only [mapPaths, step, Op.paths, mapM_one, mapM_two, hv]
+  all_goals first
+    | rfl
+    | (generalize validate _ = va
+       cases va <;> first
+         | rfl
+         | (generalize validate _ = vb; cases vb <;> rfl))
+
 
 /-! the rewrite steps the spelling generator uses preserve the normalised absolute path -/
 
 theorem equiv_leading_slash (p q : Str) (h : normpath p = .ok q) : Equiv p ('/' :: p) := by
-  sorry
+  obtain ⟨cs, _, hr, _⟩ := normpath_ok_resolve p q h
+  refine norm_abs_of_resolve p _ cs hr ?_
+  simp only [splitSlash]
+  rw [PathLemmas.splitOn_cons_sep, resolve_cons_nil]
+  exact hr
 
+set_option linter.unusedVariables false in
 theorem equiv_trailing_slash (p q : Str) (h : normpath p = .ok q) (hne : p ≠ []) :
     Equiv p (p ++ ['/']) := by
-  sorry
+  obtain ⟨cs, _, hr, _⟩ := normpath_ok_resolve p q h
+  refine norm_abs_of_resolve p _ cs hr ?_
+  simp only [splitSlash]
+  rw [splitOn_snoc_sep, resolve_snoc_nil]
+  exact hr
 
+set_option linter.unusedVariables false in
 theorem equiv_dot_prefix (p q : Str) (h : normpath p = .ok q) (hrel : startsWithSlash p = false) :
     Equiv p ('.' :: '/' :: p) := by
-  sorry
+  obtain ⟨cs, _, hr, _⟩ := normpath_ok_resolve p q h
+  refine norm_abs_of_resolve p _ cs hr ?_
+  simp only [splitSlash]
+  rw [show ('.' :: '/' :: p) = ['.'] ++ '/' :: p from rfl,
+    PathLemmas.splitOn_append_sep '/' ['.'] p (by decide), resolve_cons_dot]
+  exact hr
 
+set_option linter.unusedVariables false in
 theorem equiv_detour_prefix (x p q : Str) (h : normpath p = .ok q) (hrel : startsWithSlash p = false)
     (hx : PathSpec.CleanComp x) : Equiv p (x ++ '/' :: '.' :: '.' :: '/' :: p) := by
-  sorry
+  obtain ⟨cs, _, hr, _⟩ := normpath_ok_resolve p q h
+  refine norm_abs_of_resolve p _ cs hr ?_
+  simp only [splitSlash]
+  rw [PathLemmas.splitOn_append_sep '/' x _ hx.2.2.2,
+    show ('.' :: '.' :: '/' :: p) = ['.', '.'] ++ '/' :: p from rfl,
+    PathLemmas.splitOn_append_sep '/' ['.', '.'] p (by decide), resolve_detour x _ hx]
+  exact hr
+
+/-! the same rewrite steps neither add nor remove a NUL character (the side condition `h0` of
+`equiv_validate` / `spelling_invariant`); the detour component must itself be NUL-free -/
+
+theorem nul_leading_slash (p : Str) : '\x00' ∈ p ↔ '\x00' ∈ '/' :: p := by
+  simp [List.mem_cons]
+
+theorem nul_trailing_slash (p : Str) : '\x00' ∈ p ↔ '\x00' ∈ p ++ ['/'] := by
+  simp [List.mem_append]
+
+theorem nul_dot_prefix (p : Str) : '\x00' ∈ p ↔ '\x00' ∈ '.' :: '/' :: p := by
+  simp [List.mem_cons]
+
+theorem nul_detour_prefix (x p : Str) (hx : '\x00' ∉ x) :
+    '\x00' ∈ p ↔ '\x00' ∈ x ++ '/' :: '.' :: '.' :: '/' :: p := by
+  simp [List.mem_append, List.mem_cons, hx]
 
 example : Equiv "a/b".toList "/a//./x/../b/".toList :=
   ⟨"a/b".toList, "/a/b".toList, by decide, by decide, by decide⟩
